@@ -12,7 +12,7 @@ META = {
 def run(ctx):
     q = ctx.quick()
     plans = [
-        {"world": "focus_conc", "conc": True, "steps": 6 if q else 7},
+        {"world": "focus_conc", "conc": True, "steps": 6 if q else 7, "cap": None if q else 80000},
         {"world": "focus_rounds", "cover": True, "steps": 5 if q else 7, "avoid": True, "crash": False},
         {"world": "focus_chain", "cover": True, "edge": 2, "steps": 4 if q else 5, "avoid": True, "crash": False},
         {"world": "replay", "sim": 4 if q else 25, "steps": 7 if q else 9, "avoid": True, "crash": True, "cap": 260 if q else 3000, "seeds": 1 if q else 3},
